@@ -57,6 +57,11 @@ def gen_repo(r, portable=False, with_dist=None, ignored_dirs=True, complete=Fals
                         # names that mean something directly inside the package directory, met below files/
                         mkfile(d + '/files/sub/' + r.choice(['old-0.ebuild', 'metadata.xml', 'ChangeLog']))
             if r.random() < 0.2:
+                # hidden files inside a package directory (editor / VCS leftovers): never listed
+                t.add_file(d + '/' + r.choice(['.gitignore', '.keep', '.#lock']), b'hidden\n', mtime=1500000000)
+                if t.lookup(d + '/files') is not None and r.random() < 0.5:
+                    t.add_file(d + '/files/.keep', b'', mtime=1500000000)
+            if r.random() < 0.2:
                 # now and then a file larger than the 64 KiB / 1 MiB buffering thresholds of the hashing code and of the scripts
                 big = r.random() < 0.2
                 mkfile(d + '/ChangeLog', (b'%d: changes\n' % r.randint(0, 99)) * r.choice([6000, 7000, 11000]) if big else None)
